@@ -239,11 +239,15 @@ func c18Churn(t *testing.T, r *vmon.Run, rng *rand.Rand, hi int, max int) {
 func c18Teardown(r *vmon.Run, evs []wbEvent, scenario string) {
 	attached := map[string]int64{} // reader -> seq of successful add
 	closes := map[string]int{}
+	callsSinceClose := map[string]int{}
 	var pubRemCall int64
 	for _, ev := range evs {
 		switch ev.Kind {
 		case "addreader-ret":
 			// the client-side return may be recorded after the path already closed the reader again
+			if ev.Info == "ok" && closes[ev.Who] >= 1 {
+				callsSinceClose[ev.Who]++ // an add that was in flight during the previous close and succeeded afterwards
+			}
 			if ev.Info == "ok" && closes[ev.Who] == 0 {
 				if _, ok := attached[ev.Who]; !ok {
 					attached[ev.Who] = ev.Seq
@@ -251,7 +255,14 @@ func c18Teardown(r *vmon.Run, evs []wbEvent, scenario string) {
 			}
 		case "remreader-call":
 			delete(attached, ev.Who)
+		case "addreader-call":
+			// the churn clients add the same reader object again: an attachment made after a close is a new one
+			callsSinceClose[ev.Who]++
 		case "reader-close":
+			if closes[ev.Who] >= 1 && callsSinceClose[ev.Who] > 0 {
+				closes[ev.Who] = 0
+			}
+			callsSinceClose[ev.Who] = 0
 			closes[ev.Who]++
 			if closes[ev.Who] > 1 {
 				r.Violation("reader-closed-twice", fmt.Sprintf("%s: reader %s was closed %d times by the path", scenario, ev.Who, closes[ev.Who]), wbTrim(evs, 40))
